@@ -26,6 +26,56 @@ Theorem C12_guarded_alternative_inert :
 Proof. intros. apply guarded_alt_inert; assumption. Qed.
 Print Assumptions C12_guarded_alternative_inert.
 
+(* The whole-program form.  With error mode off, the generated parser computes EXACTLY what the
+   parser with every guarded alternative of every (non-loop) method deleted computes: same outcome
+   (value, failure, exception), same final position, same tokens fetched, same cache, same trace of
+   invocations -- for every module, method, token list, configuration (verbose x cache), fuel and
+   state whose flag is off; *_without_invalid methods, left-recursive leaders, loops, lookaheads,
+   forced items included.  (The single guarded alternative of a loop method is kept: with the flag
+   off the loop returns its empty list at once, which is what `(invalid_x)*` deleted means.) *)
+From Pegen Require Import Proofs.ExecStrip.
+Theorem C12_flag_off_equals_parser_without_guarded_alternatives :
+  forall K toks verbose use_cache M aeval exact_types token_dict fuel n st,
+  invalid st = false ->
+  run K toks verbose use_cache M aeval exact_types token_dict fuel n st =
+  run K toks verbose use_cache (strip_module M) aeval exact_types token_dict fuel n st.
+Proof. intros K toks verbose use_cache M aeval ex td fuel n st Hi. exact (strip_equiv K toks verbose use_cache M aeval ex td fuel n st Hi). Qed.
+Print Assumptions C12_flag_off_equals_parser_without_guarded_alternatives.
+
+(* non-vacuity: a module where deleting changes something (r loses its only alternative), and where the
+   flag matters (with the flag ON the two modules differ on the tokens  a b NEWLINE) *)
+Definition KD12 : kinds := {| kNAME := 1; kNUMBER := 2; kSTRING := 3; kOP := 55; kNEWLINE := 4; kINDENT := 5; kDEDENT := 6;
+  kENDMARKER := 0; kTYPE_COMMENT := 59; kFSTRING_START := 61; kFSTRING_MIDDLE := 62; kFSTRING_END := 63; kASYNC := 57; kAWAIT := 56 |}.
+Definition mkt12 (k : N) (s : string) (c : nat) : rtok :=
+  {| ty := k; tstr := s; sline := 1; scol := c; eline := 1; ecol := c + 1; tline := ""; tspace := false |}.
+Definition toks12 : list rtok := [mkt12 1 "a" 0; mkt12 1 "b" 2; mkt12 4 "" 3; mkt12 0 "" 4].
+Definition alt12 (g : bool) (conjs : list conj) (act : string) (names : list string) : ialt :=
+  {| a_has_cut := false; a_guard := g; a_conjs := conjs; a_locations := false; a_action := act; a_names := names; a_explicit := false |}.
+Definition cj12 (x : string) (c : call) : conj := {| cj_var := Some x; cj_call := c; cj_notnone := false |}.
+Definition meth12 (n : string) (alts : list ialt) : meth :=
+  {| m_name := n; m_deco := DMemo; m_type := "Any"; m_comment := ""; m_nullable := false; m_without_invalid := false;
+     m_locations := false; m_loop := false; m_gather := false; m_alts := alts |}.
+(* start: NAME r NEWLINE ;  r: invalid_z | NAME ;  invalid_z: NAME *)
+Definition mod12 : ir_module :=
+  {| i_header := None; i_subheader := ""; i_class := "P"; i_keywords := []; i_soft_keywords := []; i_trailer := None;
+     i_meths := [meth12 "start" [alt12 false [cj12 "name" (CMeth "name"); cj12 "r" (CMeth "r"); cj12 "_newline" (CExpect "'NEWLINE'")]
+                                    "[name, r, _newline]" ["name"; "r"; "_newline"]];
+                 meth12 "r" [alt12 true [cj12 "invalid_z" (CMeth "invalid_z")] "invalid_z" ["invalid_z"];
+                             alt12 false [cj12 "name" (CMeth "name")] "name" ["name"]];
+                 meth12 "invalid_z" [alt12 false [cj12 "name" (CMeth "name")] "name" ["name"]]] |}.
+Definition run12 (M : ir_module) (flag : bool) : list string :=
+  let st0 := {| pos := 0; fetched := 0; cache := []; invalid := flag; events := [] |} in
+  let '(o, s) := run KD12 toks12 false true M (fun _ _ => Some VTrue) [] [] 20 "start" st0 in
+  map ev_name (events s).
+Example C12_strip_example :
+  strip_module mod12 <> mod12 /\ run12 mod12 false = run12 (strip_module mod12) false /\
+  run12 mod12 true <> run12 (strip_module mod12) true /\ In "invalid_z" (run12 mod12 true) /\ ~ In "invalid_z" (run12 mod12 false).
+Proof.
+  split; [intros H; discriminate H|]. split; [vm_compute; reflexivity|]. split; [vm_compute; intros H; discriminate H|].
+  split; [vm_compute; tauto|]. vm_compute. intros H. repeat (destruct H as [H|H]; [discriminate H|]). exact H.
+Qed.
+Print Assumptions C12_strip_example.
+
 (* Which alternatives are guarded: the generator model guards an alternative exactly when the
    table-driven InvalidNodeVisitor answers true for it; under the decidable conditions
    [detector_ok] and monotonicity on the extracted method table (re-proved on every run for the
